@@ -73,6 +73,7 @@ class Contract:
         variant=None,
         ghost=None,
         hints=(),
+        call_ensures=None,
     ):
         self.func = func
         self.key = func + (f"#{variant}" if variant else "")
@@ -96,6 +97,7 @@ class Contract:
         self.kwargs = kwargs  # for **kwargs functions: {"known": {...}, "open": bool}
         self.ghost_pre = ghost_pre
         self.no_raise = no_raise
+        self.call_ensures = call_ensures  # what callers may assume instead of ``ensures`` (an abstraction of it)
         self.hints = list(hints)  # instances of trusted builtin-model facts, assumed (listed in evidence)
         self.ghost = dict(ghost or {})  # extra universally quantified symbols usable in clauses
         self.inline_calls = inline_calls  # verified against its contract, but inlined at call sites
@@ -295,12 +297,21 @@ def _sb_called(ex, st, args, kwargs):
     yield st, sum(1 for ev in st.trace if ev[0] == "call" and ev[1] == name)
 
 
+def _sb_call_arg(ex, st, args, kwargs):
+    """call_arg('Kind.meth', i): i-th argument of the (single) recorded call of that collaborator."""
+    name, i = args
+    calls = [ev for ev in st.trace if ev[0] == "call" and ev[1] == name]
+    if len(calls) != 1:
+        raise Unsupported(f"call_arg: {len(calls)} recorded calls of {name}")
+    yield st, calls[0][3][i]
+
+
 def _sb_py_strip(ex, st, args, kwargs):
     (s,) = args
     yield st, bm.model_strip(ex, st, s)
 
 
-SPEC_BUILTINS = {"unmodified": _sb_unmodified, "uf": _sb_uf, "called": _sb_called, "py_isalpha": _sb_py_isalpha, "py_isdigit": _sb_py_isdigit, "int_of_signed": _sb_int_of_signed, "strip_padded": _sb_strip_padded, "strip_unique": _sb_strip_unique, "py_strip": _sb_py_strip, "pad": _sb_pad, "matches": _sb_matches, "nat": _sb_nat, "key_at": _sb_key_at, "val_at": _sb_val_at,
+SPEC_BUILTINS = {"call_arg": _sb_call_arg, "unmodified": _sb_unmodified, "uf": _sb_uf, "called": _sb_called, "py_isalpha": _sb_py_isalpha, "py_isdigit": _sb_py_isdigit, "int_of_signed": _sb_int_of_signed, "strip_padded": _sb_strip_padded, "strip_unique": _sb_strip_unique, "py_strip": _sb_py_strip, "pad": _sb_pad, "matches": _sb_matches, "nat": _sb_nat, "key_at": _sb_key_at, "val_at": _sb_val_at,
                  "same_dict": _sb_same_dict}
 
 
@@ -531,17 +542,36 @@ def _loop_spec(ex: Exec, node):
 
 
 def assigned_names(body):
+    """Local names (re)bound and ``name.attr`` fields assigned somewhere in ``body``."""
     names, attrs = set(), set()
+
+    def target(t):
+        if isinstance(t, ast.Name):
+            names.add(t.id)
+        elif isinstance(t, (ast.Tuple, ast.List)):
+            for e in t.elts:
+                target(e.value if isinstance(e, ast.Starred) else e)
+        elif isinstance(t, ast.Attribute) and isinstance(t.value, ast.Name):
+            attrs.add((t.value.id, t.attr))
+        # subscript targets mutate a heap object: covered by the loop frame check
+
     for n in body:
         for sub in ast.walk(n):
-            if isinstance(sub, (ast.Assign, ast.AugAssign, ast.AnnAssign, ast.For)):
-                tgts = sub.targets if isinstance(sub, ast.Assign) else [sub.target]
-                for t in tgts:
-                    for x in ast.walk(t):
-                        if isinstance(x, ast.Name):
-                            names.add(x.id)
-                        elif isinstance(x, ast.Attribute) and isinstance(x.value, ast.Name):
-                            attrs.add((x.value.id, x.attr))
+            if isinstance(sub, (ast.FunctionDef, ast.Lambda)):
+                continue
+            if isinstance(sub, ast.Assign):
+                for t in sub.targets:
+                    target(t)
+            elif isinstance(sub, (ast.AugAssign, ast.AnnAssign, ast.For)):
+                target(sub.target)
+            elif isinstance(sub, ast.NamedExpr):
+                target(sub.target)
+            elif isinstance(sub, ast.ExceptHandler) and sub.name:
+                names.add(sub.name)
+            elif isinstance(sub, ast.With):
+                for it in sub.items:
+                    if it.optional_vars is not None:
+                        target(it.optional_vars)
     return names, attrs
 
 
@@ -847,7 +877,8 @@ def apply_contract(ex: Exec, st: State, f: FuncRef, node, c: Contract, args, kwa
     result = ex.db.make_value(ex, st, c.returns, "ret_" + c.qualname.split(".")[-1]) if c.returns else None
     env2 = dict(env)
     env2["result"] = result
-    for name, e in c.ensures:
+    view = c.ensures if c.call_ensures is None else [(f"call{i}", e) for i, e in enumerate(c.call_ensures)]
+    for name, e in view:
         st.assume(eval_spec(ex, st, e, env2, what=f"{c.key}.{name}"))
     st.old = saved_old
     if ex.feasible(st.pc):
